@@ -42,6 +42,10 @@ CHECKS = {
             "init='results' clause operationalised: previous converged default-start result at most 2 switching/small-setpoint edits old; nets <= 60 buses; tolerance 1e-6 (1e-5/1e-4 for different start points). " + COMMON_NOTE,
             "deterministic simulation: seeded operation/fault histories, replica (scrubbed-copy) oracle, crash-point injection into earlier calculations",
             "DESIGN.md section 4, C09"),
+    "C12": ("Seeded search over ConstControl sets (every supported element.variable, single/multi index, DFData/SimData), OutputWriter variable selections (batch-readable and not, subsets, eval functions, constructor tuples), time-step sequences, recycle modes, runpp/rundcpp, a simulated wall clock for intermediate dumps, failing steps (natural and planned) with recovery, and repeated runs on one net; every recorded value is compared with a fresh power flow of a replica at that step.",
+            "Steps at and after an extreme state (reference fails / >6 iterations / voltages outside 0.85-1.15 without the live run flagging a failure) are inconclusive (start-point effects); one open known finding (0 vs NaN at out-of-service branches in batch-read results). " + COMMON_NOTE,
+            "deterministic simulation: logical time steps, simulated clock and data source, failing run callback; replica with a fresh power flow per step as reference model",
+            "DESIGN.md section 4, C12"),
     "C14": ("Seeded search over meshed nets, N-1 case sets in seeded order (incl. own outage first), naturally failing and planned-failing cases, raise_errors/write_to_net, and exceptions injected inside the N-1 loop; extremes, causes and overload flags are recomputed from the per-case history recorded at the evaluation-function seam; N-0 equals a plain power flow; in_service flags restored on every exit; a second seeded case order gives the same extremes.",
             "The recorded per-case results are the ground truth (the property is about aggregation). " + COMMON_NOTE,
             "deterministic simulation: recording/failing callback at the evaluation-function seam, ExtremesModel over the recorded history, crash-point injection",
